@@ -362,3 +362,17 @@ func VerifModes(args []string) {
 		vAssert(len(pl.Errors()) > 0 || pl.ContinuationNeeded(), "modes/file-rejects-line-accepts")
 	}
 }
+
+func init() {
+	verifHarness["VerifContinuation"] = VerifContinuation
+}
+
+// VerifContinuation: a prefix of a valid program that ends inside an open construct (or right after a binary
+// operator) makes the line-mode parser ask for more input and report no error. args: prefix
+func VerifContinuation(args []string) {
+	p := verifNew(verifText(verifHoles(args[0])), true)
+	_ = p.ParseProgram()
+	vReach("prefix parsed")
+	vAssert(len(p.Errors()) == 0, "continuation/error-on-incomplete-input")
+	vAssert(p.ContinuationNeeded(), "continuation/not-requested")
+}
